@@ -11,6 +11,11 @@ E == Rec[l]
 More == l <= Len(Rec)
 Inst == {1, 2}
 BigHi == 2147483647
+\* Runs of the 64-bit / unsigned 32-bit counters look at a window of the type's range (real value = off +
+\* logged value, TLC's integers being 32-bit): hi = 1000 without a lower bound is a window just below the
+\* type's maximum (the absolute 0 is far below every value of the run), lo = -1000 without an upper bound a
+\* window just above the minimum of LINT (0 far above).  Such runs never reset CV to 0.
+Zero == IF hi = 1000 /\ lo = -BigHi THEN -BigHi ELSE IF lo = -1000 /\ hi = BigHi THEN BigHi ELSE 0
 InitMem(k) == CASE k = "TON" -> TonInit [] k = "TOF" -> TofInit [] k = "TP" -> TpInit
                 [] k \in {"CTU", "CTD", "CTUD"} -> CtrInit
                 [] k \in {"R_TRIG", "F_TRIG"} -> TrigInit
@@ -56,9 +61,9 @@ Why(m0, m, in, out) ==
                        \cup (IF out.et > Pos(in.pt) THEN {"TP.ET>PT"} ELSE {})
     [] kind = "CTU" -> LET o == CtuOut(m, in.pv) IN
                          (IF out.q = o.q THEN {} ELSE {"CTU.Q"}) \cup (IF out.cv = o.cv THEN {} ELSE {"CTU.CV"})
-    [] kind = "CTD" -> LET o == CtdOut(m) IN
+    [] kind = "CTD" -> LET o == CtdOutZ(m, Zero) IN
                          (IF out.q = o.q THEN {} ELSE {"CTD.Q"}) \cup (IF out.cv = o.cv THEN {} ELSE {"CTD.CV"})
-    [] kind = "CTUD" -> LET o == CtudOut(m, in.pv) IN
+    [] kind = "CTUD" -> LET o == CtudOutZ(m, in.pv, Zero) IN
                          (IF out.qu = o.qu THEN {} ELSE {"CTUD.QU"}) \cup (IF out.qd = o.qd THEN {} ELSE {"CTUD.QD"})
                          \cup (IF out.cv = o.cv THEN {} ELSE {"CTUD.CV"})
     [] kind = "R_TRIG" -> IF out.q = RTrigOut(m0, in.clk) THEN {} ELSE {"R_TRIG.Q"}
